@@ -51,7 +51,7 @@ def make_exc(kind, n):
     return {0: MachineError('scripted'), 1: AttributeError('scripted'), 2: ValueError('scripted'),
             7: KeyError('scripted'), 8: IndexError('scripted'), 9: OSError('scripted'),
             10: LookupError('scripted'), 11: StopIteration('scripted'),
-            12: StopAsyncIteration('scripted')}.get(kind, RuntimeError('scripted'))
+            12: StopAsyncIteration('scripted'), 13: TypeError('scripted')}.get(kind, RuntimeError('scripted'))
 
 
 def foreign_other(run, e):
@@ -188,6 +188,7 @@ class Knobs(object):
         self.deterministic = False   # every invocation of a callback behaves like its first (C12)
         self.p_custom_attr = 0.0     # model_attribute other than 'state' (opt-in per stream)
         self.p_ignore_flip = 0.0     # the machine-level ignore flag is changed after construction (opt-in)
+        self.p_tuple_cbs = 0.0       # callback collections handed over as tuples / lists alternately (opt-in)
         self.__dict__.update(kw)
 
 
@@ -225,6 +226,8 @@ def gen_flat(rng, kn):
         d.model_attr = 'mode'
     if rng.random() < kn.p_ignore_flip:
         d.ignore_flip = rng.choice([False, True])
+    if kn.p_tuple_cbs and rng.random() < kn.p_tuple_cbs:
+        d.tuple_cbs = rng.randrange(1, 4)
     d.prepare_event = cbs(SLOT['prepare_event'])
     d.before_sc = cbs(SLOT['before_state_change'])
     d.after_sc = cbs(SLOT['after_state_change'])
@@ -352,7 +355,15 @@ class FlatRun(object):
 
     # -- construction ------------------------------------------------------------------------
     def names(self, cbs):
-        return [cbname(self.d, c) for c in cbs]
+        out = [cbname(self.d, c) for c in cbs]
+        mode = getattr(self.d, 'tuple_cbs', 0)
+        if mode:
+            # `listify` keeps tuples: callback collections may legitimately arrive as tuples — all of them (1), or
+            # alternately with lists (2, 3), so that machine-level and transition-level collections differ in type
+            k = self.__dict__['_names_calls'] = self.__dict__.get('_names_calls', 0) + 1
+            if mode == 1 or (k + mode) % 2 == 0:
+                return tuple(out)
+        return out
 
     def state_defs(self):
         return [{'name': sname(s['name']), 'on_enter': self.names(s['on_enter']), 'on_exit': self.names(s['on_exit']),
